@@ -771,6 +771,20 @@ impl TypeLayout {
         matches!(me, TypeLayout::Map(..))
     }
 
+    /// Whether a value of this type is a map, or holds one as a list element or behind an optional
+    /// or a type alias. (Such a value cannot be hashed, so it cannot be the key of a map.)
+    pub fn contains_map(&self) -> bool {
+        match self {
+            Self::Map(..) => true,
+            Self::Alias(_, ty) => ty.contains_map(),
+            Self::CallbackVariable(ty) => ty.contains_map(),
+            Self::Optional(Some(ty)) => ty.contains_map(),
+            Self::List(ListType::Open(ty)) => ty.contains_map(),
+            Self::List(ListType::Mixed(types)) => types.iter().any(|ty| ty.contains_map()),
+            _ => false,
+        }
+    }
+
     pub fn is_float(&self) -> bool {
         let me = self.get_type_recursively();
 
